@@ -120,7 +120,10 @@ def run_input(case, R):
     noise = rng.standard_normal((D, T)) * 10 ** rng.uniform(-2, 1) * case['scale']
     ib, nb = images.copy(), noise.copy()
     rd = case['rd']
-    res = input_sxr(images, noise, average_sources=case['avg_s'], average_channels=case['avg_c'], return_dict=rd)
+    if case['rs'][-1] % 2:
+        res = input_sxr(images, noise, average_sources=case['avg_s'], average_channels=case['avg_c'], return_dict=rd)
+    else:
+        res = input_sxr(images, noise, case['avg_s'], case['avg_c'], return_dict=rd)          # the two averaging options in their positional order
     R.check('C19.input', np.array_equal(images, ib) and np.array_equal(noise, nb), 'input/purity', 'arguments modified')
     pre = check_dict(R, 'input_sxr', res, rd)
     if pre is None:
@@ -246,4 +249,16 @@ def run_snr(case, R):
         X3, N3 = set_snr(X2, N2, snr2, inplace=False)
         got2 = float(get_snr(X3, N3))
         R.check('C19.snr', abs(got2 - snr2) <= 1e-8, 'snr/round-trip-second', f'after set_snr to {snr:.6f} dB, set_snr to {snr2:.6f} dB gives get_snr = {got2:.8f}', dev=abs(got2 - snr2), delta=delta)
+    if case['rs'][-1] % 4 == 1:
+        # noise recorded in single precision, levelled in place (the documented default): the caller's own array must carry the new level
+        Xs, Ns = X.astype(np.complex64 if cplx else np.float32), Nn.astype(np.complex64 if cplx else np.float32)
+        Nsb = Ns.copy()
+        try:
+            r = set_snr(Xs, Ns, snr, inplace=True)
+            got = float(get_snr(Xs, Ns))
+            R.check('C19.snr', r is None and Ns.dtype == Nsb.dtype and abs(got - snr) <= 1e-3, 'snr/inplace-single', f'set_snr(inplace=True) on {Ns.dtype} noise leaves get_snr = {got:.5f} dB instead of {snr:.5f} dB', dev=abs(got - snr))
+        except Exception as e:
+            if not instr.is_library_exception(e):
+                raise
+            R.fail('C19.snr', 'snr/inplace-single', f'set_snr(inplace=True) raised {type(e).__name__} for {Nsb.dtype} noise: {str(e)[:100]}')
     R.mark_nontrivial('snr', list(lead), cplx)
